@@ -242,6 +242,12 @@ func validateVisitGroupField(fieldDef *datadictionary.FieldDef, fieldStack []Tag
 
 		// Start of repeating group.
 		if int(fieldStack[0].tag) == fieldDef.Fields[0].Tag() {
+			// The previous entry ends here: none of its remaining members may be required.
+			for _, childDef := range childDefs {
+				if childDef.Required() {
+					return fieldStack, RequiredTagMissing(Tag(childDef.Tag()))
+				}
+			}
 			childDefs = fieldDef.Fields
 			groupCount++
 		}
